@@ -400,6 +400,11 @@ let shapes : (string * (string * M.node list) list * G.custom list) list =
   [ (* element access under default: the operand's failure is not an undefined element *)
     "attr-default", [ "main", [ text "a"; print (filt (M.EAttr (call "fetch" [ var "id" ], bs "name")) "default" [ lit_str "anonymous" ]); text "b" ] ], [ f0 ];
     "item-default", [ "main", [ text "a"; print (filt (M.EItem (call "fetch" [ var "xs" ], lit_int 0)) "default" [ lit_str "none" ]); text "b" ] ], [ f0 ];
+    (* a callback inside the subscript of an item access that is tested with is defined / is not defined *)
+    "item-index-is-defined", [ "main", [ text "a"; print (M.ECond (M.ETest (M.EItem (var "xs", call "fetch" [ lit_int 0 ]), bs "defined", [], false), lit_str "d", lit_str "u")); text "b" ] ], [ f0 ];
+    "item-index-is-not-defined", [ "main", [ text "a"; ifn (M.ETest (M.EItem (var "m", filt (lit_str "name") "sf0" []), bs "defined", [], true)) [ text "T" ] [ text "F" ]; text "b" ] ], [ s0 ];
+    "item-index-test-is-defined", [ "main", [ forv "i" (var "xs") [ print (M.ECond (M.ETest (M.EItem (var "xs", M.ECond (M.ETest (var "n", bs "st0", [], false), lit_int 0, lit_int 1)), bs "defined", [], false), lit_str "d", lit_str "u")) ] ] ], [ t0 ];
+    "item-of-call-is-defined", [ "main", [ text "a"; print (M.ECond (M.ETest (M.EItem (call "fetch" [ var "xs" ], lit_int 0), bs "defined", [], false), lit_str "d", lit_str "u")); text "b" ] ], [ f0 ];
     "item-index-default", [ "main", [ print (filt (M.EItem (var "xs", call "fetch" [ lit_int 0 ])) "default" [ lit_str "none" ]) ] ], [ f0 ];
     "attr-default-chain", [ "main", [ print (filt (filt (M.EAttr (filt (var "m") "sf0" [], bs "name")) "default" [ lit_str "d" ]) "upper" []) ] ], [ s0 ];
     "attr-default-in-loop", [ "main", [ forv "i" (var "xs") [ print (filt (M.EAttr (call "fetch" [ var "m" ], bs "a")) "default" [ var "i" ]); text ";" ] ] ], [ f0 ];
